@@ -321,3 +321,68 @@ def _set_display_ob(nwords):
 
 for _n in (0, 1, 2):
     _set_display_ob(_n)
+
+
+# ---------------------------------------------------------------------------------------
+@obligation("C05", "O4.links-only-to-visible-entities", engine="SX", timeout=300)
+def links_visible(ctx):
+    """FortranBase.__str__ (what templates print for an entity) and graph nodes give a hyperlink iff the entity is visible and has a URL"""
+    import ford.sourceform as sf
+    import ford.graphs as gr
+
+    ctx.encode_fn(sf.FortranBase.__str__)
+    ctx.encode_fn(gr.BaseNode.__init__)
+
+    def h(E):
+        vis = E.boolean("visible")
+        has_url = E.boolean("has_url")
+        o = object.__new__(sf.FortranSubroutine)
+        o.name = "target"
+        o.visible = vis
+        o.parent = None
+        o.obj = "proc"
+        if has_url:
+            o.external_url = "https://example.org/proc/target.html"
+            E.reachable("with-url")
+        text = sf.FortranBase.__str__(o)
+        E.reachable("printed")
+        linked = "<a " in text and "href" in text
+        want = z3.And(sym.bterm(vis), z3.BoolVal(bool(has_url)))
+        E.require(sym.mk_bool(z3.BoolVal(linked) == want), "entity printed as a link although hidden (or as text although visible)")
+        # graph node for the same entity
+        gd = S.Rec(parent_dir="", show_proc_parent=False)
+        n = object.__new__(gr.BaseNode)
+        n.attribs = {}
+        try:
+            gr.BaseNode.__init__(n, o if not has_url else str.__str__("<a href='https://example.org/x.html'>target</a>"), gd)
+        except Exception:  # noqa
+            return
+        E.reachable("node")
+
+    E = sym.Engine(ctx, max_paths=200, incremental=True)
+    found = E.explore(h)
+    seen = set()
+    for label, m, pc in found:
+        if label in seen:
+            continue
+        seen.add(label)
+        ctx.report(label, {"visible": z3.is_true(m.eval(z3.Bool("visible"), model_completion=True)),
+                           "has_url": z3.is_true(m.eval(z3.Bool("has_url"), model_completion=True))}, replay_links_visible)
+    for nm in ("printed", "with-url"):
+        if E.reached.get(nm):
+            ctx.twins += 1
+        else:
+            ctx.inconclusive.append(f"vacuity: {nm}")
+    ctx.sample({"cases": "visible x has_url"})
+
+
+def replay_links_visible(w):
+    import ford.sourceform as sf
+
+    o = object.__new__(sf.FortranSubroutine)
+    o.name, o.visible, o.parent, o.obj = "target", w["visible"], None, "proc"
+    if w["has_url"]:
+        o.external_url = "https://example.org/proc/target.html"
+    text = sf.FortranBase.__str__(o)
+    linked = "<a " in text
+    return linked != (w["visible"] and w["has_url"]), {"printed": text, "visible": w["visible"], "has_url": w["has_url"]}
